@@ -200,6 +200,8 @@ def bundled_names(dump):
         for st in stems:
             for suf in ("", "s"):
                 n = pre + st + suf
+                if n in ("ans", "ANS", "_"):
+                    continue          # Context::lookup reads these as the previous result, not as unit names
                 if n not in seen:
                     seen.add(n)
                     out.append(n)
